@@ -400,7 +400,8 @@ FIXED = [b"aaaaaaa,b,c", b"aaaaaaa", b"a1,b", b"a[1-3],b", b"a[1-3,07-09],b5", b
 
 # ------------------------------------------------------------------ running
 class PrintRunner:
-    OPS = ["dump", "ptext r", "ptext d", "psweep r +2", "psweep d +2", "pback r", "pback d", "pranges s", "pranges p"]
+    OPS = ["dump", "ptext r", "ptext d", "psweep r +2", "psweep d +2", "pback r", "pback d", "pranges s", "pranges p", "pranges n"]
+    NR = len(OPS) - 1         # `pranges n` (final call skipped on a full array) or `pranges N` (always made): probe_nextrange
     EXACT = ["pexact r +2", "pexact d +2"]
 
     # the literal buffer sizes of the two fixed callers (Print.lean WCOLL_STR / XLIST_BUF)
@@ -447,6 +448,20 @@ class PrintRunner:
             self.variant = "fixed" if (ret == -1 and not oob) else "unchanged"
         return self.variant
 
+    def probe_nextrange(self):
+        """which form of _iterator_advance_range does the code under test have (F14-NEXTRANGE)?  behavioural: a forked
+        child iterates hostlist_next_range over a list whose record array is full; repaired = it survives under ASan.
+        On the repaired form every list is iterated to its NULL (`pranges N`)."""
+        res = run_batch([self.exe], [["new", "pnrprobe"]], env=self.env, timeout=60)
+        ans, crash = res[0]
+        self.nrvariant = ans[1] if crash is None and len(ans) == 2 and ans[1] in ("fixed", "unchanged") else None
+        if self.nrvariant is None:
+            self.ctx.disagreement("next_range variant probe", "hl_harness gave no usable answer: %s %s" % (ans, (crash or "")[-300:]))
+            self.nrvariant = "unchanged"
+        self.OPS = list(self.OPS)
+        self.OPS[self.NR] = "pranges N" if self.nrvariant == "fixed" else "pranges n"
+        return self.nrvariant
+
     def impl(self, cases, exact=()):
         seqs = []
         for i, c in enumerate(cases):
@@ -470,9 +485,47 @@ class PrintRunner:
 
 
 # ------------------------------------------------------------------ CLI
+ASAN_MAKE = "make -j8 CFLAGS='-g -O1 -fsanitize=address -fno-omit-frame-pointer' LDFLAGS='-fsanitize=address'"
+
+
+def start_pdsh_builds(ctx):
+    """both scratch builds of the working tree - the normal one (same recipe and place as ctx.repo_build) and the
+    AddressSanitizer one - started IN PARALLEL and in the BACKGROUND at the beginning of the run; the CLI part waits
+    for them (PrintCli), by which time the harness and model work has usually hidden their cost"""
+    from vlib.common import REPO
+    d1, d2 = os.path.join(ctx.scratch, "repo"), os.path.join(ctx.scratch, "repo-asan")
+    one = ("(cp -a %s %s && cd %s && rm -rf .git && (make clean >/dev/null 2>&1; rm -f src/pdsh/testconfig.c; "
+           "%s >%s 2>&1))")
+    cmd = (one % (REPO, d1, d1, "make -j8", "build.log")) + " & " + \
+          (one % (REPO, d2, d2, ASAN_MAKE, "build-asan.log")) + " & wait"
+    return subprocess.Popen(cmd, shell=True, stdout=subprocess.DEVNULL, stderr=subprocess.DEVNULL, start_new_session=True)
+
+
+def stop_pdsh_builds(builds):
+    """the CLI part did not run (harness build failed, replay of a non-CLI case): do not leave make running"""
+    import signal
+    if builds is not None and builds.poll() is None:
+        try:
+            os.killpg(builds.pid, signal.SIGTERM)
+        except OSError:
+            pass
+        builds.wait()
+
+
 class PrintCli:
-    def __init__(self, ctx):
+    def __init__(self, ctx, builds=None):
         self.ctx = ctx
+        d1 = os.path.join(ctx.scratch, "repo")
+        if builds is not None:
+            try:
+                builds.wait(timeout=900)
+            except subprocess.TimeoutExpired:
+                builds.kill()
+            if ctx.repo_copy is None and os.path.exists(os.path.join(d1, "src/pdsh/pdsh")):
+                ctx.repo_copy = d1            # what ctx.repo_build() would have produced (same recipe, same place)
+            elif ctx.repo_copy is None:
+                import shutil
+                shutil.rmtree(d1, ignore_errors=True)
         self.repo = ctx.repo_build()
         self.pdsh = os.path.join(self.repo, "src/pdsh/pdsh") if self.repo else None
         self.cwd = os.path.join(ctx.scratch, "clicwd14")
@@ -485,18 +538,21 @@ class PrintCli:
         in the real binary, not only through their observable output"""
         from vlib.common import run
         dst = os.path.join(self.ctx.scratch, "repo-asan")
-        run(["cp", "-a", self.repo, dst], check=True)
-        p = run("make clean >/dev/null 2>&1; rm -f src/pdsh/testconfig.c; "
-                "make -j8 CFLAGS='-g -O1 -fsanitize=address -fno-omit-frame-pointer' LDFLAGS='-fsanitize=address' "
-                ">build-asan.log 2>&1", cwd=dst, timeout=900)
         exe = os.path.join(dst, "src/pdsh/pdsh")
-        ok = p.returncode == 0 and os.path.exists(exe)
+        if not os.path.exists(exe):           # not pre-built in the background (or that failed): build it now
+            import shutil
+            shutil.rmtree(dst, ignore_errors=True)
+            run(["cp", "-a", self.repo, dst], check=True)
+            run("make clean >/dev/null 2>&1; rm -f src/pdsh/testconfig.c; %s >build-asan.log 2>&1" % ASAN_MAKE,
+                cwd=dst, timeout=900)
+        ok = os.path.exists(exe)
         if ok:
             q = run("nm %s | grep -c __asan_init" % exe)
             ok = q.stdout.strip() not in (b"", b"0")
         if not ok:
+            log = os.path.join(dst, "build-asan.log")
             self.ctx.broken.append(("C-BROKEN", "AddressSanitizer build of pdsh",
-                                    open(os.path.join(dst, "build-asan.log"), errors="replace").read()[-1500:]))
+                                    open(log, errors="replace").read()[-1500:] if os.path.exists(log) else "no build log"))
             return None
         return exe
 
